@@ -1,6 +1,17 @@
 (* model_driver.ml — line protocol around the extracted MODEL of gigue.
-     enc <cls> <name> <a1> ...  -> W <word> | NONE                              *)
+     enc <cls> <name> <a1> ...  -> W <word> | NONE
+     dis <table> <word>         -> name type 9 fields 5 unsigned imms 5 signed imms | NONE
+     pcrel <auipc word> <low word> -> offset
+     helper <table> <name>      -> mask match rvo6_2 rvo1_0 bitpat cva6bits                              *)
 open Zio
+
+let table_of t = match t with
+  | "base" -> GenTables.base_table
+  | "rimi" -> Types.dict_union GenTables.rimi_table GenTables.base_table
+  | "fixer" -> Types.dict_union GenTables.fixer_table GenTables.base_table
+  | "rimi_only" -> GenTables.rimi_table
+  | "fixer_only" -> GenTables.fixer_table
+  | _ -> failwith "table"
 
 let () =
   try
@@ -13,6 +24,35 @@ let () =
                  (clist_of_string cls) (clist_of_string name) args with
          | Some g -> print_string ("W " ^ string_of_z (Enc.generate g) ^ "\n")
          | None -> print_string "NONE\n")
+      | [ "dis"; t; w ] ->
+        let w = z_of_string w in
+        (match Disasm.get_instruction_info (table_of t) w with
+         | None -> print_string "NONE\n"
+         | Some e ->
+           let f = [ Disasm.extract_opcode; Disasm.extract_funct3; Disasm.extract_xd; Disasm.extract_xs1;
+                     Disasm.extract_xs2; Disasm.extract_rd; Disasm.extract_rs1; Disasm.extract_rs2;
+                     Disasm.extract_funct7 ] in
+           let im = [ Disasm.extract_imm_b; Disasm.extract_imm_i; Disasm.extract_imm_j;
+                      Disasm.extract_imm_s; Disasm.extract_imm_u ] in
+           let s1 = String.concat " " (List.map (fun g -> string_of_z (g w)) f) in
+           let s2 = String.concat " " (List.map (fun g -> string_of_z (g w false)) im) in
+           let s3 = String.concat " " (List.map (fun g -> string_of_z (g w true)) im) in
+           print_string (Printf.sprintf "%s %s %s %s %s\n" (string_of_clist e.Types.ii_name)
+                           (string_of_clist e.Types.ii_type) s1 s2 s3))
+      | [ "pcrel"; a; b ] ->
+        print_string (string_of_z (Disasm.extract_pc_relative_offset (z_of_string a) (z_of_string b)) ^ "\n")
+      | [ "helper"; t; name ] ->
+        (match Types.lookup_info (table_of t) (clist_of_string name) with
+         | None -> print_string "NONE\n"
+         | Some e ->
+           let (m, v) = Disasm.gnu_mask_match e in
+           let bp = (match Disasm.rocket_bitpat e with
+               | None -> "INDEXERROR"
+               | Some l -> String.concat "" (List.map (fun b -> match b with
+                   | Disasm.P0 -> "0" | Disasm.P1 -> "1" | Disasm.PQ -> "?") l)) in
+           let cv = String.concat "" (List.map (fun b -> if b then "1" else "0") (Disasm.cva6_bits e)) in
+           print_string (Printf.sprintf "%s %s %s %s %s %s\n" (string_of_z m) (string_of_z v)
+                           (string_of_z (Disasm.rvo_6_2 e)) (string_of_z (Disasm.rvo_1_0 e)) bp cv))
       | _ -> print_string "BAD\n")
     done
   with End_of_file -> ()
